@@ -175,6 +175,43 @@ theorem tag_search_backend_independent (m q : Store) (gid tag mode : Nat) (hmsg 
   have h : Generated.sqlTagSearchCaseInsensitive = false := by decide
   simp [findEpochByTag, hmsg, h]
 
+/-- … and it has ONE answer on both backends — the newest match in display order
+    (`Generated.tagSearchNewestWins`: SQLite `ORDER BY created_at DESC, processed_at DESC, id DESC LIMIT 1`,
+    memory the `display_order_cmp` maximum); before /repo's repair the contract left the choice open and
+    the backends picked different messages -/
+theorem tag_search_single_answer (s : Store) (gid tag mode : Nat) :
+    (findEpochByTag s gid tag mode).length ≤ 1 := by
+  have h : Generated.tagSearchNewestWins = true := by decide
+  simp only [findEpochByTag, h, if_true]
+  split
+  · rename_i m _; cases m.epoch <;> simp
+  · simp
+
+/-- the answer is the epoch of a matching message that no other match beats in display order -/
+theorem newestMsg_mem (l : List Msg) (m : Msg) (h : newestMsg l = some m) : m ∈ l := by
+  induction l generalizing m with
+  | nil => simp [newestMsg] at h
+  | cons a t ih =>
+    simp only [newestMsg] at h
+    cases hb : newestMsg t with
+    | none => rw [hb] at h; cases h; simp
+    | some b =>
+      rw [hb] at h
+      simp only at h
+      split at h
+      · cases h; exact List.mem_cons_of_mem _ (ih _ hb)
+      · split at h
+        · cases h; exact List.mem_cons_of_mem _ (ih _ hb)
+        · cases h; simp
+
+/-- two messages carrying the same tag in different epochs: the answer is the later-created one's epoch,
+    whatever the insertion order (closed witness; the former arbitrary choice is what thorough C10 runs found) -/
+example :
+    let a : Msg := { (default : Msg) with id := 1, gid := 1, created := 100, tag := 5, epoch := some 1 }
+    let b : Msg := { (default : Msg) with id := 2, gid := 1, created := 101, tag := 5, epoch := some 4 }
+    findEpochByTag { (Store.empty .mem) with msgs := [a, b] } 1 5 0 = [4] ∧
+    findEpochByTag { (Store.empty .sql) with msgs := [b, a] } 1 5 0 = [4] := by decide
+
 /-- pruning reports the number of snapshots on both backends (`Generated.sqlPruneCountsRows`) -/
 theorem prune_count_backend_independent (m q : Store) (t : Nat) (hs : m.snaps = q.snaps) :
     (snapPrune m t).2 = (snapPrune q t).2 := by
